@@ -1627,7 +1627,11 @@ def gen_C17(rng, tier):
     if big:
         shorts += [a + b + c for a in alpha for b in alpha for c in alpha]
     rng.shuffle(shorts)
-    strings = shorts[: (len(shorts) if big else 180)] + [rand_string(rng, "") for _ in range(6000 if big else 700)]
+    # numbers at the limits of the integer conversions (signed and unsigned), with and without a sign
+    limits = ["-9223372036854775808", "-9223372036854775809", "9223372036854775807", "9223372036854775808",
+              "18446744073709551615", "18446744073709551616", "-18446744073709551616", "-0", "-00", "--1", "- 1", "-1-", "+1",
+              "X^9223372036854775808", "X^-1", "-X", "- X", "-(a + 1)X"]
+    strings = shorts[: (len(shorts) if big else 180)] + limits * 6 + [rand_string(rng, "") for _ in range(6000 if big else 700)]
     descs = [field_desc(7, 1), field_desc(2, 3), field_desc(3, 2), field_desc(65537, 1), field_desc(2, 12), field_desc(5, 3)]
     per = 12
     for i in range(0, len(strings), per):
